@@ -98,6 +98,16 @@ def generate(seed, tier):
     n_corpus = len(pool)
     for _ in range(n_gen):
         pool.append(_generated_source(srng))
+        if srng.random() < 0.3:
+            # a near-duplicate pair: the same program with another layout of its first struct
+            import random as _random
+            from . import genmisc
+
+            st = srng.getrandbits(64)
+            pool[-1] = genmisc.gen_source(_random.Random(st), 0)
+            twin = genmisc.gen_source(_random.Random(st), 1)
+            if twin != pool[-1]:
+                pool.append(twin)
     # focus keys recur across processes and positions; half of them are generated
     # programs (which share struct / function / global names among each other)
     n_focus = rng.randint(3, 8)
@@ -125,6 +135,7 @@ def generate(seed, tier):
         imps = [i for i, s in enumerate(pool) if "import " in s]
         focus += [(rng.choice(imps), rng.randrange(2)) for _ in range(2)]
     relib = rng.random() < 0.5
+    heavy = [i for i, src in enumerate(pool) if len(src) > 4000] if rng.random() < 0.35 else []
     nproc = rng.randint(2, 5 if tier == "quick" else 6)
     procs = []
     used = set()
@@ -158,6 +169,13 @@ def generate(seed, tier):
             for _ in range(rng.randint(0, 2)):
                 v = 1 - v
                 hist.insert(rng.randrange(len(hist) + 1), [-1, {"relib": v}])
+        if heavy and rng.random() < 0.5:
+            # big optimised compilations early in the process (whatever accumulates per process -
+            # counters, pools, caps - is far along when the focus keys are compiled)
+            n_pre = rng.randint(12, 24) if rng.random() < 0.3 else rng.randint(2, 4)  # sometimes a marathon
+            pre = [[rng.choice(heavy), dict(OPTSETS[rng.choice([1, 1, 3])])] for _ in range(n_pre)]
+            hist[0:0] = pre
+            used.update(i for i, _o in pre)
         cache = rng.choice(["valid", "valid", "absent", "stale", "unwritable"])
         if rng.random() < 0.04:
             cache = "torn"  # probe P4 (beyond the statement): never judged
